@@ -1,7 +1,8 @@
 /-
-  C04 — lemmas about `J.pyEq` (Python `==`) and `J.dropNulls` on well-formed values.
+  C04 — lemmas about `same` (Python `==`) and `J.dropNulls` on well-formed values.
 -/
 import Kopf.Lemmas.C04_Pigeon
+import Kopf.Model.C04_Diff
 namespace Kopf.C04
 open Kopf Kopf.J
 
@@ -35,24 +36,24 @@ mutual
         · exact fullInd_kvs hleaf harr hobj rest k x h
 end
 
-/-! ### `pyEq` basics -/
+/-! ### `same` basics -/
 
-theorem pyEq_null_right {x : J} (h : pyEq x .null = true) : x = .null := by
-  cases x <;> simp [pyEq] at h ⊢
+theorem pyEq_null_right {x : J} (h : same x .null = true) : x = .null := by
+  cases x <;> simp [same] at h ⊢
 
-theorem pyEq_null_left {y : J} (h : pyEq .null y = true) : y = .null := by
-  cases y <;> simp [pyEq] at h ⊢
+theorem pyEq_null_left {y : J} (h : same .null y = true) : y = .null := by
+  cases y <;> simp [same] at h ⊢
 
-theorem pyEq_isObj {a b : J} (h : pyEq a b = true) : a.isObj = b.isObj := by
-  cases a <;> cases b <;> simp [pyEq] at h <;> rfl
+theorem pyEq_isObj {a b : J} (h : same a b = true) : a.isObj = b.isObj := by
+  cases a <;> cases b <;> simp [same] at h <;> rfl
 
 theorem pyEqSub_iff (a b : Kvs) :
-    pyEqSub a b = true ↔ ∀ k x, (k, x) ∈ a → ∃ y, lookup k b = some y ∧ pyEq x y = true := by
+    sameSub a b = true ↔ ∀ k x, (k, x) ∈ a → ∃ y, lookup k b = some y ∧ same x y = true := by
   induction a with
-  | nil => simp [pyEqSub]
+  | nil => simp [sameSub]
   | cons kv a ih =>
     obtain ⟨k0, x0⟩ := kv
-    simp only [pyEqSub, Bool.and_eq_true, ih, List.mem_cons]
+    simp only [sameSub, Bool.and_eq_true, ih, List.mem_cons]
     constructor
     · rintro ⟨h1, h2⟩ k x (h | h)
       · cases h
@@ -71,12 +72,12 @@ def optRel (r : J → J → Bool) : Option J → Option J → Prop
   | some x, some y => r x y = true
   | _, _ => False
 
-theorem pyEq_obj (a b : Kvs) : pyEq (.obj a) (.obj b) = (a.length == b.length && pyEqSub a b) := by
-  simp [pyEq]
+theorem pyEq_obj (a b : Kvs) : same (.obj a) (.obj b) = (a.length == b.length && sameSub a b) := by
+  simp [same]
 
 /-- Python dict equality, for unique keys: pointwise on lookups. -/
 theorem pyEq_obj_iff {a b : Kvs} (ha : wfKvs a = true) (hb : wfKvs b = true) :
-    pyEq (.obj a) (.obj b) = true ↔ ∀ k, optRel pyEq (lookup k a) (lookup k b) := by
+    same (.obj a) (.obj b) = true ↔ ∀ k, optRel same (lookup k a) (lookup k b) := by
   rw [pyEq_obj, Bool.and_eq_true, pyEqSub_iff]
   have hna := nodupKeys_of_wf ha
   have hnb := nodupKeys_of_wf hb
@@ -142,21 +143,21 @@ theorem wf_arr_mem {xs : List J} (h : wf (.arr xs) = true) : ∀ x, x ∈ xs →
 
 theorem wf_obj {kvs : Kvs} : wf (.obj kvs) = wfKvs kvs := by simp [wf]
 
-theorem pyEq_refl (a : J) : wf a = true → pyEq a a = true := by
-  refine fullInd_aux (P := fun a => wf a = true → pyEq a a = true) ?_ ?_ ?_ a
+theorem pyEq_refl (a : J) : wf a = true → same a a = true := by
+  refine fullInd_aux (P := fun a => wf a = true → same a a = true) ?_ ?_ ?_ a
   · intro a h1 h2 _
     cases a with
     | arr xs => exact absurd rfl (h1 xs)
     | obj kvs => exact absurd rfl (h2 kvs)
-    | _ => simp [pyEq]
+    | _ => simp [same]
   · intro xs ih hw
     have hm := wf_arr_mem hw
-    simp only [pyEq]
+    simp only [same]
     clear hw
     induction xs with
-    | nil => simp [pyEqList]
+    | nil => simp [sameList]
     | cons y ys ihl =>
-      simp only [pyEqList, Bool.and_eq_true]
+      simp only [sameList, Bool.and_eq_true]
       exact ⟨ih y List.mem_cons_self (hm y List.mem_cons_self),
              ihl (fun x hx => ih x (List.mem_cons_of_mem _ hx)) (fun x hx => hm x (List.mem_cons_of_mem _ hx))⟩
   · intro kvs ih hw
